@@ -14,7 +14,7 @@ from ..core import (digest, state_digest, rel_err, Violation, h64, np_stream)
 from ..data import make_data
 from ..estimators import cls_of, tuple_size, SPEC
 from ..histgen import gen_history, history_shrink_moves
-from ..machine import Machine
+from ..machine import Machine, same_outputs
 
 ID = "C17"
 TIERS = {"quick": dict(runs=700, budget=42, det=12),
@@ -257,10 +257,10 @@ class Oracle(object):
         a = _first_diff(live["state_before"], live["state_after"])
         raise Violation("restart_transparent", "cls=%s,attr=%s" % (h.name, a),
                         "fitted state differs after pickle round trip (%s)" % ev.get("how"))
-      if live["before_out"] != live["after_out"]:
+      if not same_outputs(live["before_out"], live["after_out"], m.cov):
         raise Violation("restart_transparent", "cls=%s,outputs" % h.name,
                         "query outputs differ after pickle round trip")
-      if "fresh_out" in live and live["fresh_out"] != live["before_out"]:
+      if "fresh_out" in live and not same_outputs(live["before_out"], live["fresh_out"], m.cov):
         raise Violation("restart_transparent", "cls=%s,outputs_fresh_process" % h.name,
                         "query outputs differ in a fresh interpreter")
     elif kind == "set_params" and "pre" not in op and h is not None and h.defined and \
